@@ -75,8 +75,8 @@ def run(prog, rep):
     for f_ in u.functions.values():
         if not f_.static:
             continue
-        if "*" in (f_.d.get("rets") or "") and "PIni" in (f_.d.get("rets") or ""):
-            keep.add(f_.name)
+        if "*" in (f_.d.get("rets") or "") and "PIni" in (f_.d.get("rets") or "") and any(c.get("callee") in ("p_malloc0", "p_malloc") for (b, i, c) in f_.calls()):
+            keep.add(f_.name)          # a constructor: allocates the object it returns (a helper that merely returns a section is inlined)
         if f_.params and any(c.get("callee") == "p_free" and root_var(c["args"][0]) == f_.param_names()[0] and strip_casts(c["args"][0])["k"] == "ref" for (b, i, c) in f_.calls()):
             keep.add(f_.name)
     ps = u.fn("p_ini_file_parse").inlined(skip=keep)
@@ -151,11 +151,11 @@ def run(prog, rep):
     rep.floor("C16.1", 8)
 
     # ---- C16.2 -----------------------------------------------------------------------------
-    producers = [(f, c) for f in u.functions.values() for (b, i, c) in f.calls() if c.get("callee") == "pp_ini_file_parameter_new"]
+    producers = [(f, c) for f in u.roots(skip=tuple(sorted(keep))) for (b, i, c) in f.calls() if c.get("callee") == "pp_ini_file_parameter_new"]
     okp = len(producers) == 1 and producers[0][0].name == "p_ini_file_parse"
     vmax = None
     if okp:
-        c = producers[0][1]
+        c = [c_ for (b, i, c_) in ps.calls() if c_.get("callee") == "pp_ini_file_parameter_new"][0]
         vsz = arr_size(ps, root_var(c["args"][1]))
         ksz = arr_size(ps, root_var(c["args"][0]))
         okp = vsz is not None and ksz is not None
@@ -184,7 +184,7 @@ def run(prog, rep):
     V_SEC = var_assigned_from(ps, "pp_ini_file_section_new")
     if not (V_LINE and V_FILE and V_SEC):
         raise AnalysisBroken("p_ini_file_parse: line / file / section variables not found")
-    TR = (V_SEC, V_LINE, V_FILE)
+    TR = tuple(sorted(ps.copies_of(V_SEC))) + (V_LINE, V_FILE)
     probs = []
     linked = [0]
 
@@ -355,14 +355,17 @@ def run(prog, rep):
                       "documented conversion counts, and the header pattern is applied only to a line whose first byte is '[' and whose last byte is ']'")
     GRAMMAR = [("header", "[%[^]]", 1), ("double-quoted", "%[^=] = \"%[^\"]\"", 2), ("single-quoted", "%[^=] = '%[^']'", 2), ("plain", "%[^=] = %[^;#]", 2)]
     sc = []
+    nomatch = {}
     for b, i, c in ps.calls():
         if c.get("callee") in ("sscanf", "__isoc99_sscanf"):
             fmt = strip_casts(c["args"][1])
             fs = fmt.get("v") if fmt is not None and fmt["k"] == "str" else None
             want = None
+            nomatch[id(c)] = "false"
             for b2, i2, n2 in ps.nodes(elsewhere=True):
-                if n2["k"] == "bin" and n2["op"] == "==" and strip_casts(n2["l"]) is c:
+                if n2["k"] == "bin" and n2["op"] in ("==", "!=") and strip_casts(n2["l"]) is c:
                     want = cv(n2["r"])
+                    nomatch[id(c)] = "false" if n2["op"] == "==" else "true"      # `sscanf (...) != 2` leaves on its true edge
             sc.append((b, i, c, re.sub(r"\s+", " ", fs or ""), want))
     sc.sort(key=lambda t: (line(t[2]), t[2]["loc"][1]))
     okt = len(sc) == len(GRAMMAR)
@@ -376,7 +379,7 @@ def run(prog, rep):
         # order: the false edge of each pattern's test leads to the next pattern
         for k in range(1, len(sc) - 1):
             blk = sc[k][0]
-            nxt = [to for (to, on) in blk.succs if on == "false"]
+            nxt = [to for (to, on) in blk.succs if on == nomatch[id(sc[k][2])]]
             found = None
             seen, work = set(), list(nxt)
             while work and found is None:
@@ -444,8 +447,37 @@ def run(prog, rep):
     def st_drop(st, v):
         return frozenset(x for x in st if x[1] != v)
 
-    def pipe_stmt(st, b, i, stmt):
+    # flags and helper results the loop branches on (`if (pp_trim_in_place (key))`): their constant values prune the paths on which
+    # a helper failed and the caller nevertheless went on
+    asg_vals = {}
+    for b, i, n in ps.nodes(elsewhere=True):
+        if n["k"] == "asg" and strip_casts(n["l"]) is not None and strip_casts(n["l"])["k"] == "ref":
+            asg_vals.setdefault(strip_casts(n["l"])["name"], []).append(cv(n["r"]))
+        elif n["k"] == "decl" and n.get("init") is not None:
+            asg_vals.setdefault(n["name"], []).append(cv(n["init"]))
+    PFLAGS = tuple(v for v, vals in asg_vals.items() if all(x is not None for x in vals) or (v.startswith("__ret_") and any(x is not None for x in vals)))
+
+    def pipe_stmt(st0, b, i, stmt):
+        facts, st = st0
+        r_ = pipe_stmt1(st, b, i, stmt)
+        f2 = restrict(guards.transfer(facts, stmt), PFLAGS)
+        return [(f2, x) for x in r_]
+
+    def note_quote_test(st, n):
+        lit = [strip_casts(a) for a in n["args"] if strip_casts(a) is not None and strip_casts(a)["k"] == "str"]
+        var = [root_var(a) for a in n["args"] if strip_casts(a) is not None and strip_casts(a)["k"] != "str"]
+        if len(lit) == 1 and len(var) == 1 and lit[0].get("v") in QUOTES:
+            state = st_get(st, var[0])
+            if (line(n), var[0], state) not in [q[:3] for q in quote_tests]:
+                quote_tests.append((line(n), var[0], state, n))
+            if state == "trim":
+                st = st | {("t", var[0], lit[0].get("v"))}
+        return st
+
+    def pipe_stmt1(st, b, i, stmt):
         for n in walk(stmt):
+            if n["k"] == "call" and n.get("callee") in ("strcmp", "__builtin_strcmp") and len(n["args"]) == 2:
+                st = note_quote_test(st, n)          # (also inside `a ? TRUE : FALSE` and other unbranched uses)
             if n["k"] == "call":
                 cal = n.get("callee")
                 if cal in ("sscanf", "__isoc99_sscanf", "fgets"):
@@ -486,24 +518,23 @@ def run(prog, rep):
                 elif l is not None and l["k"] == "idx" and cv(l["i"]) == 0 and cv(n["r"]) == 0 and n["k"] == "asg":
                     v = root_var(l["base"])
                     if v:
-                        st = st | {("e", v)}
+                        st = frozenset(x for x in st if not (x[0] == "s" and x[1] == v)) | {("e", v), ("s", v, "trim")}    # the empty string is trimmed
         return [st]
 
-    def pipe_edge(st, b, to, on):
+    def pipe_edge(st0, b, to, on):
+        f2 = guards.edge_assume(st0[0], b, on)
+        if f2 is None:
+            return None
+        return (restrict(f2, PFLAGS), pipe_edge1(st0[1], b, to, on))
+
+    def pipe_edge1(st, b, to, on):
         c = b.cond
         if c is not None and on in ("true", "false"):
             for n in walk(c):
                 if n["k"] == "call" and n.get("callee") in ("strcmp", "__builtin_strcmp") and len(n["args"]) == 2:
-                    lit = [strip_casts(a) for a in n["args"] if strip_casts(a) is not None and strip_casts(a)["k"] == "str"]
-                    var = [root_var(a) for a in n["args"] if strip_casts(a) is not None and strip_casts(a)["k"] != "str"]
-                    if len(lit) == 1 and len(var) == 1 and lit[0].get("v") in QUOTES:
-                        state = st_get(st, var[0])
-                        if (line(n), var[0], state) not in [q[:3] for q in quote_tests]:
-                            quote_tests.append((line(n), var[0], state, n))
-                        if state == "trim":
-                            st = st | {("t", var[0], lit[0].get("v"))}
+                    st = note_quote_test(st, n)
         return st
-    Flow(ps, [frozenset()], pipe_stmt, pipe_edge, max_states=60000).run()
+    Flow(ps, [(guards.EMPTY, frozenset())], pipe_stmt, pipe_edge, max_states=60000).run()
     if not quote_tests:
         raise AnalysisBroken("p_ini_file_parse: no comparison of the value with the \"\" / '' literals found (C16.7 anchor)")
     for key_, n in sorted(pipe_seen.items()):
